@@ -413,7 +413,7 @@ def run_problem(ctx, drv, case):
                 i_, j_ = int(bfc.bf_inds_i[t]), int(bfc.bf_inds_j[t])
                 reqs.append({"op": "icom_operator", "kx": fl([float(kxa[i_, j_])])[0], "ky": fl([float(kya[i_, j_])])[0],
                              "qx": fl(qxa.numpy()), "qy": fl(qya.numpy())})
-        for t, ans in enumerate(drv.ask_many(reqs)):
+        for t, ans in enumerate(drv.ask(q) for q in reqs):   # large requests: one at a time (pipe buffers)
             ctx.count()
             if "ok" not in ans:
                 raise RuntimeError(f"driver: {ans}")
